@@ -282,11 +282,15 @@ structure DammitResult where
   containsReplacement : Bool
 deriving Repr
 
+/-- the guard of the second pass negated: `if not u:` (dammit.py:817) — or `if u is None:` once C07's repair is in;
+    which one the live source has is read by the translator -/
+def firstPassEnough (u : Option PStr) : Bool := if Gen.dammitRetriesOnEmpty then truthy u else u.isSome
+
 /-- `UnicodeDammit.__init__` for non-empty bytes, given the candidate list `detector.encodings` yields (the same both
     times: C07 models the generator) -/
 def dammit (env : DammitEnv) (encs : List Nat) : DammitResult :=
   let p1 := pass1 env encs {}
-  let p2 := if truthy p1.1 then (p1.1, false, p1.2) else pass2 env encs p1.1 p1.2     -- `if not u:`
+  let p2 := if firstPassEnough p1.1 then (p1.1, false, p1.2) else pass2 env encs p1.1 p1.2
   match p2.1 with
   | none => ⟨none, none, p2.2.1⟩                                                       -- :841-843
   | some t => ⟨some t, p2.2.2.originalEncoding, p2.2.1⟩
@@ -402,18 +406,34 @@ def parserFeed {V : Type} (p : Parser V) (o : Obj V) : Obj V × Option Err :=
   | (o', some e) => (o', some e)
   | (o', none) => (o', t.2)
 
-/-- `HTMLParserTreeBuilder.feed` (bs4/builder/_htmlparser.py:466-474) -/
+/-- Python's `ValueError` and its subclasses (`UnicodeError` ⊂ `ValueError`) among the classes of `Err` -/
+def Err.isValueError : Err → Bool
+  | .valueError | .unicodeEncodeError | .unicodeError => true
+  | _ => false
+
+/-- `HTMLParserTreeBuilder.feed` (bs4/builder/_htmlparser.py:466-474) as repaired:
+    `except (AssertionError, ValueError) as e: raise ParserRejectedMarkup(e)` — CPython's tokenizer raises
+    `ValueError` from `html.unescape` for an attribute value holding a decimal reference beyond the digit limit -/
 def builderFeed {V : Type} (p : Parser V) (o : Obj V) : Obj V × Option Err :=
+  match parserFeed p o with
+  | (o', some e) => if e = .assertionError ∨ e.isValueError = true then (o', some .parserRejectedMarkup) else (o', some e)
+  | r => r
+
+/-- the same before the repair: only `AssertionError` is wrapped -/
+def builderFeedOld {V : Type} (p : Parser V) (o : Obj V) : Obj V × Option Err :=
   match parserFeed p o with
   | (o', some .assertionError) => (o', some .parserRejectedMarkup)
   | r => r
 
-/-- `_feed` under the constructor's `try … except ParserRejectedMarkup` -/
-def soupFeed {V : Type} (p : Parser V) (o : Obj V) : Obj V × Outcome :=
-  match builderFeed p o with
+def feedOutcome {V : Type} (p : Parser V) : Obj V × Option Err → Obj V × Outcome
   | (o', none) => (p.endOfInput o', .accept)
   | (o', some .parserRejectedMarkup) => (o', .reject)
   | (o', some e) => (o', .raise e)
+
+/-- `_feed` under the constructor's `try … except ParserRejectedMarkup` -/
+def soupFeed {V : Type} (p : Parser V) (o : Obj V) : Obj V × Outcome := feedOutcome p (builderFeed p o)
+
+def soupFeedOld {V : Type} (p : Parser V) (o : Obj V) : Obj V × Outcome := feedOutcome p (builderFeedOld p o)
 
 /-- the constructor from the markup checks on (bs4/__init__.py:439-490) for `str`/`bytes` markup -/
 def construct {V : Type} (m : Machine V) (heur : Markup → Except Err Warning)
@@ -430,5 +450,11 @@ def retryIndex : List Outcome → Nat → Option (Nat × Outcome)
   | [], _ => none
   | .reject :: r, i => retryIndex r (i + 1)
   | o :: _, i => some (i, o)
+
+/-- the constructor's end for the first non-rejecting attempt (none: every strategy rejected) -/
+def retryResult : Option (Nat × Outcome) → Except Err Unit
+  | some (_, .raise e) => .error e
+  | some (_, .accept) => .ok ()
+  | _ => .error .parserRejectedMarkup
 
 end BS.Construct
